@@ -774,6 +774,77 @@ theorem chancap_argument_scoped (channel c stored : Str)
 example : makeChannelCapability ['#', 'a'] ['#', 'b', ',', 'o', 'p'] = .ok ['#', 'a', ',', '#', 'b', ',', 'o', 'p'] := by decide
 example : chanSplit ['#', 'a', ',', '#', 'b', ',', 'o', 'p'] = some (['#', 'a'], ['#', 'b', ',', 'o', 'p']) := by decide
 
+/-- **voice / devoice act on others only for channel ops**: if the body of `voice` / `devoice` sends
+a mode change for any nick other than the caller's own — wherever in the list the caller's nick
+stands, however many nicks there are — the caller holds `#chan,op`; `#chan,voice` alone only ever
+reaches the caller himself. -/
+theorem voice_others_needs_op (db : Db) (now : Int) (h callerNick channel : Str) (nicks targets : List Str)
+    (t : Str) (hout : voiceBody db now h callerNick channel nicks = .modes targets)
+    (ht : t ∈ targets) (hne : t ≠ callerNick) :
+    ∃ cap, makeChannelCapability channel opS = .ok cap ∧ db.checkCapability now h cap = .ok true := by
+  unfold voiceBody at hout
+  have hcap : voiceCapability callerNick nicks = opS := by
+    unfold voiceCapability
+    cases nicks with
+    | nil =>
+      -- no nick given: the only target is the caller
+      exfalso
+      cases hm : makeChannelCapability channel (voiceCapability callerNick []) with
+      | error e => simp [hm] at hout
+      | ok cap =>
+        rw [hm] at hout
+        simp only at hout
+        cases hk : db.checkCapability now h cap with
+        | error e => simp [hk] at hout
+        | ok b =>
+          cases b with
+          | false => simp [hk] at hout
+          | true =>
+            simp only [hk, VoiceOut.modes.injEq] at hout
+            rw [← hout] at ht
+            simp [voiceTargets] at ht
+            exact hne ht
+    | cons n rest =>
+      cases rest with
+      | cons n2 r2 => rfl
+      | nil =>
+        by_cases hn : n = callerNick
+        · exfalso
+          subst hn
+          cases hm : makeChannelCapability channel (voiceCapability n [n]) with
+          | error e => simp [hm] at hout
+          | ok cap =>
+            rw [hm] at hout
+            simp only at hout
+            cases hk : db.checkCapability now h cap with
+            | error e => simp [hk] at hout
+            | ok b =>
+              cases b with
+              | false => simp [hk] at hout
+              | true =>
+                simp only [hk, VoiceOut.modes.injEq] at hout
+                rw [← hout] at ht
+                simp [voiceTargets] at ht
+                exact hne ht
+        · simp [hn]
+  rw [hcap] at hout
+  cases hm : makeChannelCapability channel opS with
+  | error e => simp [hm] at hout
+  | ok cap =>
+    refine ⟨cap, rfl, ?_⟩
+    rw [hm] at hout
+    simp only at hout
+    cases hk : db.checkCapability now h cap with
+    | error e => simp [hk] at hout
+    | ok b =>
+      cases b with
+      | true => rfl
+      | false => simp [hk] at hout
+
+example : voiceCapability ['j', 'o', 'e'] [['j', 'o', 'e'], ['a', 'l']] = opS := by decide
+example : voiceCapability ['j', 'o', 'e'] [['j', 'o', 'e']] = voiceS := by decide
+example : voiceCapability ['j', 'o', 'e'] [['J', 'o', 'e']] = opS := by decide
+
 /-! ## configuration writes -/
 
 /-- **config_write_guard**: `group.set(value)` is reached only for a name that is not read-only and
@@ -1010,7 +1081,7 @@ theorem callgraph_ok :
 
 /-- the shape of the gate code the model mirrors (each fact is a syntactic check of the current
 source by the extractor) -/
-theorem gate_shape_ok : Gen.gateShape.all (fun s => s.2) = true ∧ Gen.gateShape.length = 21 := by
+theorem gate_shape_ok : Gen.gateShape.all (fun s => s.2) = true ∧ Gen.gateShape.length = 22 := by
   decide
 
 /-- a refusal is a `raise`: no call site of `errorNoCapability` passes `Raise=False` (the default is
